@@ -117,6 +117,39 @@ theorem warmup_records {D A : Type} (sp : Spec D A) (ti : Nat) (k idx : Nat) (r 
       · rw [hs]; simp [warmStep]
       · rw [he, hlen]; simp [warmStep, List.zipIdx_cons]
 
+/-- **Batching is transparent**: `sample(n, batch_size=b)` leaves the sampler — attributes, stored
+    samples, acceptance records, callback log (indices included), random stream — exactly as
+    `sample(n)` does, for every `b`. -/
+theorem batch_transparent {D A : Type} (sp : Spec D A) (b n : Nat) (r : Run D A)
+    (bs : List Val × List (List Val)) :
+    (batchLoop sp b n (r, bs)).1 = sampleLoop sp n r := by
+  induction n generalizing r bs with
+  | zero => rfl
+  | succ k ih => simp only [batchLoop, sampleLoop]; exact ih _ _
+
+theorem sampleBatched_run {D A : Type} (sp : Spec D A) (n b : Nat) (r : Run D A) :
+    (sampleBatched sp n b r).1 = sample sp n r := by
+  simp only [sampleBatched, sample]; exact batch_transparent sp b n _ _
+
+theorem batchAdd_flatten (b : Nat) (p : Val) (st : List Val × List (List Val)) :
+    (batchAdd b p st).2.flatten ++ (batchAdd b p st).1 = st.2.flatten ++ st.1 ++ [p] := by
+  unfold batchAdd
+  simp only []
+  split <;> simp
+
+/-- **Batch files hold the chain's slices**: the files written, concatenated in order, followed by
+    the still unwritten current batch, are exactly the states of the transitions of this call. -/
+theorem batch_files {D A : Type} (sp : Spec D A) (b n : Nat) (r : Run D A)
+    (bs : List Val × List (List Val)) :
+    (batchLoop sp b n (r, bs)).2.2.flatten ++ (batchLoop sp b n (r, bs)).2.1 =
+      bs.2.flatten ++ bs.1 ++ (transitions sp.step n r.obj r.stream).map Prod.fst := by
+  induction n generalizing r bs with
+  | zero => simp [batchLoop, transitions]
+  | succ k ih =>
+    simp only [batchLoop, transitions]
+    rw [ih, batchAdd_flatten]
+    simp [oneStep]
+
 /-! ## 2. checkpoint / resume and re-initialisation -/
 
 /-- **Resume** (`resume_bisim`): let `step` read only the attributes `R` (its result on `W`, its
